@@ -23,6 +23,22 @@ CLAIMS = {
   note=NOTE_COMMON + "Over-approximation: the typestate is path-insensitive (may report infeasible paths, cannot miss a feasible one "
        "inside the analysed functions); accesses through aliases of the registry (none exist: it is a private static member) "
        "are not tracked. Known findings: 21 file-scope variables of transport.cpp (see known_findings.json)."),
+ "C07": dict(
+  technique="reset-completeness: interprocedural structural must-write analysis over every member of Phreeqc and IPhreeqc/PHRQ_io along the reload sequence; dominance of the reload steps; mirror-flag pairing",
+  text=("Static structural analysis of the reload path: the universe is every data member of class Phreeqc (593) and of IPhreeqc "
+        "with its PHRQ_io base (71), taken from the class definitions on every run. Each member must be re-initialised on every "
+        "normal-completion path of clean_up(); init(); do_initialize() (engine) resp. UnLoadDatabase() + test_db() (wrapper) - "
+        "computed by a must-write analysis that is sound for must (if = intersection, loops = nothing unless constant bounds, "
+        "early exits stop accumulation, resolved callees summarised) - or be listed in an exemption table whose secondary "
+        "obligation is re-checked (named builder/consumer must-writes it, all accesses confined to named functions, never read, "
+        "documented survivor). Also: UnLoadDatabase dominates read_database, the three reset calls are unconditional and ordered, "
+        "the self-test run is on the success path, and engine options mirrored into PHRQ_io flags are written in pairs. This is a "
+        "necessary condition of the property (a member the reload does not rewrite and a run can change yields a differing "
+        "(history, follow-up) pair - five such defects were replayed and fixed); equality of results after the load beyond "
+        "reset completeness is NOT decided."),
+  note=NOTE_COMMON + "The must-analysis may under-approximate (then a member needs a table row, never a missed gap). Rows of class "
+       "guarded/unconfirmed carry a reason only (human judgement; the unconfirmed ones are listed in DESIGN.md as suspected but "
+       "unreproduced). Cover methods trusted by name: clear/assign/resize/erase()/swap/init/Clear/Reset/SetAll."),
  "C13": dict(
   technique="API-matrix table agreement + forwarder-shape analysis of every C/Fortran wrapper + guarded-copy shape of padfstring + setter/getter field pairing",
   text=("Static structural analysis of the three binding layers, rebuilt from the current source on every run: (a) the "
